@@ -75,6 +75,9 @@ def plan(tier, seed):
         shards.append(("feat", mt, 4))
         if tier == "thorough":
             shards.append(("feat", mt, 5))
+    # one long tie-free chain: a forest whose optimum paths are more than a thousand arcs deep
+    shards.append(("chain", 1100, 2))
+    shards.append(("chain", 40, 20))
     shards.append(("knn", 3, 0, 64, "full"))
     for a, b in E.chunks(256, 16):
         shards.append(("knn", 4, a, b, "full"))
@@ -171,6 +174,10 @@ def programs(shard, seed):
             for lab in labs:
                 yield {"model": "SupervisedOPF", "mode": "pre", "W": W,
                        "labels": list(E.rename_classes(lab, seed))}
+    elif kind == "chain":
+        _, n, head = shard
+        for mode in ("features", "pre"):
+            yield {"model": "SupervisedOPF", "mode": mode, "metric": "euclidean", "chain": [n, head]}
     elif kind == "featx":
         _, metric, n, regime = shard
         if regime == "near":
@@ -210,7 +217,33 @@ def programs(shard, seed):
                                "max_k": max_k}
 
 
+def expand_chain(prog):
+    """1-D points with strictly growing gaps (all pairwise distances distinct: x_i - x_j =
+    (i-j)(1+(i+j)e) determines the pair); the first `head` points are class 0, the others class 1, so the
+    only prototypes are the two points at the class boundary and every other point hangs on a path that
+    runs through all points between it and the boundary."""
+    n, head = prog["chain"]
+    e = 1e-6
+    xs = [i * (1.0 + i * e) for i in range(n)]
+    out = dict(prog)
+    out["labels"] = [0 if i < head else 1 for i in range(n)]
+    if prog["mode"] == "features":
+        out["X"] = [[x] for x in xs]
+    else:
+        out["W"] = [[abs(a - b) for b in xs] for a in xs]
+    return out
+
+
 def run_case(prog, res=None, model=None):
+    if "chain" in prog:
+        full = expand_chain(prog)
+        full.pop("chain")
+        v = run_case(full, res, model)
+        if v:
+            v["program"] = prog        # the generator, not the expanded arrays
+        if res is not None and not v:
+            res.nontrivial += 1
+        return v
     lab = list(prog["labels"])
     n = len(lab)
     if prog["model"] == "KNNSupervisedOPF":
@@ -290,7 +323,7 @@ def run(shard, seed):
     k = 0
     for prog in programs(shard, seed):
         try:
-            with horizon(10.0):
+            with horizon(240.0 if "chain" in prog else 10.0):
                 v = run_case(prog, res)
         except Horizon as hz:
             v = viol(prog, str(hz), "no termination")
